@@ -49,33 +49,42 @@ def agg_identifier_sets(ctx):
     refusal(ctx, f, "SEP", "G-ids:|commitments|==|shares|",
             [("len!=len", cmp_fact("eq", length(fld(arg(1), "signing_commitments")), length(arg(2)), False))], ok_sinks(f))
     def allf(fa):
-        if not (fa[0] == "cond" and fa[1] == "all" and is_call(fa[2], name="keys") and fld(arg(1), "signing_commitments")(fa[2][2][0])
+        if not (fa[0] == "cond" and fa[1] in ("all", "any") and is_call(fa[2], name="keys") and fld(arg(1), "signing_commitments")(fa[2][2][0])
                 and fa[3] is not None and fa[3][0] == "closure"):
             return None
-        return "pass" if fa[4] else "fail"
-    ok = refusal(ctx, f, "SEP", "G-ids:every-signer-has-a-share(all)", [("keys().all(..)", allf)], ok_sinks(f))
+        # all(..) must hold / any(..) must not hold for the call to proceed
+        holds = fa[4]
+        return "pass" if holds == (fa[1] == "all") else "fail"
+    ok = refusal(ctx, f, "SEP", "G-ids:every-signer-has-a-share(all)", [("keys().all(..)/!any(..)", allf)], ok_sinks(f))
     if not ok:
         return
-    clos = [fa[3] for (e, fa) in v.facts if allf(fa)]
+    clos = [(fa[1], fa[3]) for (e, fa) in v.facts if allf(fa)]
     good = bool(clos)
-    for c in clos:
+    for kind, c in clos:
         cf = P.fns.get(c[1])
-        if not cf or ("arg", 2) not in c[2]:
+        if not cf or not any(arg(2)(x) for x in c[2]):
             good = False
             continue
-        idx = c[2].index(("arg", 2))
+        idx = [n for n, x in enumerate(c[2]) if arg(2)(x)][0]
         vc = FnView.get(P, cf)
         shares = lambda t: t == ("field", ("arg", 1), None, str(idx))
         has = lambda t: is_call(t, name="contains_key") and shares(t[2][0]) and t[2][1] == ("arg", 2)
+        proceed = (kind == "all")      # the closure value that lets this identifier through
         true_edges = {e for (e, fa) in vc.facts if fa[0] == "cond" and fa[1] == "contains" and shares(fa[2]) and fa[3] == ("arg", 2) and fa[4]}
         reach = cf.reach(0, removed=frozenset(true_edges))
         for (b, k, w) in ret_writes(cf):
             if k == "call":
                 t = vc.cx.call(w, (cf.key, b))
-                if has(t):
+                if proceed and has(t):
                     continue
-            elif k == "other" and w.get("k") == "use" and w["op"].get("const", {}).get("bits") == "0":
-                continue
+            elif k == "other":
+                t = vc.cx.rvalue(w, (cf.key, b, 0))
+                if t[0] == "const" and isinstance(t[2], int) and bool(t[2]) != proceed:
+                    continue            # the value that refuses
+                if (not proceed) and t[0] == "un" and t[1] == "Not" and has(t[2]):
+                    continue
+                if proceed and has(t):
+                    continue
             if b in reach:
                 good = False
     ctx.check(good, "PROV", f.key, "G-ids:all-closure-implies-share-present",
